@@ -168,15 +168,69 @@ def row_independence(ctx, rep, rule, methods):
     rep.floor(rule, 'vectorised family methods scanned', n, 3 * len(methods) - 3)
 
 
+def archimedean_composition(ctx, rep):
+    """generator(C(u, v)) = generator(u) + generator(v) on narrow boxes with exact theta: both sides are evaluated as
+    intervals; disjoint intervals (beyond a relative tolerance) refute the identity for every point of the box."""
+    from ..ivkind import IV, evaluate
+    from .ivcases import EXACT_THETAS, Q
+    k = 12 if ctx.thorough else 6
+    cuts = [0.02 + 0.96 * i / k for i in range(k + 1)]
+    w = 1e-4
+    cells = [IV(c, c + w) for c in cuts]
+    cache = ctx.memo.setdefault('ivcases', {}).setdefault('dom', {})
+    dom = (IV(0.0, 1.0), IV(0.0, 1.0))
+    for fam in ('Clayton', 'Frank', 'Gumbel'):
+        cls = ctx.prog.cls(Q[fam])
+        g = cls.lookup('generator')
+        cons = f'{fam}: generator(C(u,v)) = generator(u) + generator(v)'
+        if g is None or cls.lookup('cumulative_distribution') is None:
+            continue
+        total = und = 0
+        refuted = None
+        for th in EXACT_THETAS[fam]:
+            for u in cells:
+                for v in cells:
+                    total += 1
+                    cs = evaluate(ctx, cls, 'cumulative_distribution', th, u, v, alts=True, domain=dom, domcache=cache)
+                    gu = [x for x, d_, _ in evaluate(ctx, cls, 'generator', th, u, IV(1.0), alts=True) if d_]
+                    gv = [x for x, d_, _ in evaluate(ctx, cls, 'generator', th, v, IV(1.0), alts=True) if d_]
+                    if len(gu) != 1 or len(gv) != 1 or not isinstance(gu[0], IV) or not isinstance(gv[0], IV) or gu[0].nan or gv[0].nan:
+                        und += 1
+                        continue
+                    rhs = IV(gu[0].lo + gv[0].lo, gu[0].hi + gv[0].hi)
+                    for c, definite, _ in cs:
+                        if not isinstance(c, IV) or c.nan or not definite:
+                            und += 1
+                            continue
+                        cc = IV(max(c.lo, 0.0), min(c.hi, 1.0)) if c.lo <= 1.0 and c.hi >= 0.0 else c
+                        lhs = [x for x, d_, _ in evaluate(ctx, cls, 'generator', th, cc, IV(1.0), alts=True) if d_]
+                        if len(lhs) != 1 or not isinstance(lhs[0], IV) or lhs[0].nan == 1:
+                            und += 1
+                            continue
+                        l = lhs[0]
+                        tol = 1e-6 * max(1.0, abs(rhs.lo), abs(rhs.hi))
+                        if l.nan == 2 or l.lo > rhs.hi + tol or l.hi < rhs.lo - tol:
+                            refuted = refuted or (th, u, v, c, l, rhs)
+            if refuted:
+                break
+        if refuted:
+            th, u, v, c, l, rhs = refuted
+            rep.bad('D6.generator', g, g.node.name, f'{fam}: for theta = {th.lo:g}, u in {u}, v in {v} the CDF lies in {c}, its generator in {l}, while '
+                    f'generator(u) + generator(v) lies in {rhs}: the CDF is not the Archimedean copula of this generator', construct=cons)
+        else:
+            rep.undecided('D6.generator', g, g.node.name, f'generator(C(u,v)) = generator(u) + generator(v): not refuted on any of {total} narrow boxes'
+                          f'{" (" + str(und) + " evaluations not decided)" if und else ""} (a relation; intervals can refute it, not prove it)', construct=cons)
+
+
 def run(ctx, rep):
     rep.trust(*K.TRUSTED_BASE_COMMON, 'numpy ufuncs and arithmetic act elementwise')
     rep.notes.append('C06 PARTIAL: decides C(u,v) = C(v,u) through the AC normal form of each closed form, row independence of the '
                      'vectorised methods (reductions over the batch are enumerated and triaged) and that theta validation dominates '
                      'every evaluation. D4 evaluates the closed forms in an interval domain with IEEE special values over boxes of '
                      '(theta, u, v): boundary values at 0 and the corner (1,1), range and NaN-freedom are proved where the '
-                     'intervals allow, relational clauses (uniform margins, Frechet bounds) can only be refuted. 2-increasingness, '
-                     'the generator identity and ordering in theta are identities between real functions that intervals cannot '
-                     'carry: not decided.')
+                     'intervals allow, relational clauses (uniform margins, Frechet bounds, the generator identity on narrow boxes with an '
+                     'exact theta) can only be refuted. 2-increasingness and ordering in theta are identities between real '
+                     'functions that intervals cannot carry: not decided.')
     rep.rule('D1.sym', 'the closed-form CDF is invariant under swapping its two arguments (AC normal form)')
     rep.rule('D2.rows', 'no reduction over the batch axis influences the returned values (cumulative_distribution, percent_point)')
     rep.rule('D3.guard', 'check_fit() (and with it check_theta) dominates every read of theta in every evaluation method')
@@ -190,6 +244,10 @@ def run(ctx, rep):
     rep.rule('D5.shortcut', 'an early-return shortcut of a family CDF is the independence value u * v (sibling cross-check), unless its guard is an invalid theta')
     shortcut_consistency(ctx, rep, 'D5.shortcut', 'cumulative_distribution')
     row_independence(ctx, rep, 'D2.rows', ['cumulative_distribution', 'percent_point'])
+    rep.rule('D6.generator', 'interval evaluation of each family generator: generator(1) = 0, finite and non-negative on (0, 1]; and, on narrow boxes '
+             'with an exact theta, generator(C(u, v)) meets generator(u) + generator(v) (refutation only)')
+    ivcases.run_family_clauses(ctx, rep, 'D6.generator', 'generator', ivcases.generator_clauses())
+    archimedean_composition(ctx, rep)
     l1(ctx, rep, rule='D3.guard', only_classes=set(FAMILIES.values()) | {'copulas.bivariate.base.Bivariate'})
     # check_fit validates theta
     prog = ctx.prog
